@@ -51,6 +51,39 @@ def tolerated (c : CmpCtx) (rj : List Iv) (rr : Iv) (ij : List Iv) (ir : Iv) (i 
   suspiciousShort c r || shiftTolerated c ij r || missedExonTolerated c ij || fakeTerminalTolerated c rj rr i ||
   terminalMisalignmentClass c rj rr ij ir i
 
+/-! ### tolerance (d) as the REPAIRED code applies it (audit finding C01-G1)
+
+The fake-terminal-exon tolerance excuses the short outermost exon and its intron ONLY: the overhang of the NEXT exon over
+the isoform end is classified by `categorize_exon_elongation_subtype` like the overhang of any outermost exon
+(`elongationEvents` measures `measuredExon`).  `fakeTerminalTolerated` (above) is the class the code tolerated BEFORE the
+repair; the repaired class is `fakeTerminalWithin`. -/
+
+/-- the elongation test of the (repaired) code reports a MAJOR overhang at the left (right) end of the read w.r.t. isoform
+    `I`; geometric characterisation: `Props/C01FakeTerminal.lean: majorOverhang_left_of_marks / _right_of_marks` -/
+def majorOverhang (g : Gene) (p : Params) (rp : ReadProf) (I : IsoInfo) (left : Bool) : Bool :=
+  match elongationEvents g p rp I with
+  | some el => el.any (fun e => decide (e.ty = if left then MatchEventSubtype.major_exon_elongation_left
+                                                else MatchEventSubtype.major_exon_elongation_right))
+  | none => false
+
+/-- the read carries a polyA / polyT position (polyA verification may then re-interpret an overhang) -/
+def hasTail (pa : PolyA) : Bool := !(decide (pa.extA = -1) && decide (pa.extT = -1) && decide (pa.intA = -1) && decide (pa.intT = -1))
+
+/-- (d′) the intron is the first (last) one, the first (last) read exon is at most `max_fake_terminal_exon_len` long AND
+    the next exon is within the ordinary elongation tolerance (no major overhang at that end; reads with a polyA / polyT
+    position are not covered) -/
+def fakeTerminalWithin (g : Gene) (p : Params) (rp : ReadProf) (I : IsoInfo) (i : Nat) : Bool :=
+  (decide (i = 0) && decide (firstExonLen rp.region rp.introns ≤ p.max_fake_terminal_exon_len) &&
+    (!(majorOverhang g p rp I true) || hasTail rp.polya)) ||
+  (decide (i + 1 = rp.introns.length) && decide (lastExonLen rp.region rp.introns ≤ p.max_fake_terminal_exon_len) &&
+    (!(majorOverhang g p rp I false) || hasTail rp.polya))
+
+/-- `tolerated` with class (d) tightened to what the repaired code tolerates -/
+def toleratedFix (g : Gene) (p : Params) (q : CParams) (rp : ReadProf) (I : IsoInfo) (i : Nat) (r : Iv) : Bool :=
+  suspiciousShort (cmpCtxOf g p q) r || shiftTolerated (cmpCtxOf g p q) I.introns r ||
+  missedExonTolerated (cmpCtxOf g p q) I.introns || fakeTerminalWithin g p rp I i ||
+  terminalMisalignmentClass (cmpCtxOf g p q) rp.introns rp.region I.introns I.region i
+
 /-- Boolean form of `ChainsWF` (used by the driver / the oracle to decide the domain of the theorems) -/
 def chainsWFb (δ : Int) (rj : List Iv) (rr : Iv) (ij : List Iv) (ir : Iv) : Bool :=
   decide (0 ≤ δ) && decide (SD rj) && decide (SD ij) &&
